@@ -133,6 +133,15 @@ func (v *Verifier) scriptOpt(o *Oblig, getValues []string, filtered bool, dropQu
 	pc := o.PC
 	if !o.MustSat && filtered {
 		pc = relevant(o.PC, o.Goal)
+		// the first attempt leaves out the heap well-formedness axioms (they cost the
+		// solvers much more than they usually help); the full attempt has them
+		var keep []*Term
+		for _, p := range pc {
+			if !v.heapAxSet[p] {
+				keep = append(keep, p)
+			}
+		}
+		pc = keep
 	}
 	if !filtered && !o.MustSat && len(v.axiomSet) > 0 {
 		// global axioms are included only when they share a function symbol with the rest
